@@ -26,7 +26,8 @@ type want struct {
 var dawnFuncsC10 = []want{
 	{"internal/mvs/reqs.go", []string{"Reqs.Required", "Reqs.Max", "cmpVersion"}},
 	{"internal/mvs/get.go", []string{"BuildList"}},
-	{"internal/mvs/resolver.go", []string{"Resolver.resolveProject", "versionRequirement", "requirementVersion"}},
+	{"internal/mvs/resolver.go", []string{"Resolver.resolveProject", "Resolver.resolveProjectRevision", "Resolver.FetchProject",
+		"versionRequirement", "requirementVersion"}},
 	{"internal/project/version.go", []string{"CleanPath", "SplitPathVersion", "TrimPathVersion", "JoinPathVersion"}},
 	{"project_config.go", []string{"Project.loadConfigFile"}},
 }
@@ -38,7 +39,7 @@ var dawnFuncsC11 = []want{
 	{"internal/mvs/query.go", []string{"parseVersionQuery", "querier.resolveVersionQuery", "querier.resolveLatestQuery",
 		"querier.resolveUpgradeQuery", "querier.resolvePatchQuery", "querier.resolveSemverRangeQuery", "parseSemverRangeQuery",
 		"parseSemverPrefix", "parseSemverGTE", "parseSemverLTE", "majorVersionMatch"}},
-	{"internal/mvs/resolver.go", []string{"Resolver.listVersions", "Resolver.findProjectRepository"}},
+	{"internal/mvs/resolver.go", []string{"Resolver.listVersions", "Resolver.findProjectRepository", "taggedVersions"}},
 	{"cmd/dawn/get.go", []string{"newGetCommand"}},
 }
 
@@ -190,6 +191,16 @@ func main() {
 
 	// 1. normalised bodies of every modelled function of dawn
 	files := map[string]*lib.File{}
+	// what cannot be found among the C11-only facts is reported apart, so that it does not un-discharge C10
+	var errsC11 []string
+	failC11 := false
+	fail := func(format string, a ...any) {
+		if failC11 {
+			errsC11 = append(errsC11, lib.LeanString(fmt.Sprintf(format, a...)))
+		} else {
+			o.Fail(format, a...)
+		}
+	}
 	collect := func(dir, prefix string, ws []want) (names, bodies []string, fds []*ast.FuncDecl) {
 		for _, w := range ws {
 			f := files[dir+"/"+w.file]
@@ -197,7 +208,7 @@ func main() {
 				var err error
 				f, err = lib.Parse(dir, w.file)
 				if err != nil {
-					o.Fail("parse %s%s: %v", prefix, w.file, err)
+					fail("parse %s%s: %v", prefix, w.file, err)
 					continue
 				}
 				files[dir+"/"+w.file] = f
@@ -205,7 +216,7 @@ func main() {
 			for _, fn := range w.funcs {
 				fd := f.Func(fn)
 				if fd == nil {
-					o.Fail("%s%s: func %s not found", prefix, w.file, fn)
+					fail("%s%s: func %s not found", prefix, w.file, fn)
 					continue
 				}
 				names = append(names, prefix+w.file+":"+fn)
@@ -217,7 +228,9 @@ func main() {
 	}
 	n10, b10, _ := collect(*repo, "", dawnFuncsC10)
 	o.Def("bodiesC10", "List (String × String)", leanPairs(n10, b10))
+	failC11 = true
 	n11, b11, _ := collect(*repo, "", dawnFuncsC11)
+	failC11 = false
 	if f, err := lib.Parse(*repo, "cmd/dawn/tidy.go"); err != nil {
 		o.Fail("parse cmd/dawn/tidy.go: %v", err)
 	} else if fd := varFuncLit(f, "tidyCmd", "RunE"); fd == nil {
@@ -227,6 +240,37 @@ func main() {
 		b11 = append(b11, lib.NormFunc(fd))
 	}
 	o.Def("bodiesC11", "List (String × String)", leanPairs(n11, b11))
+
+	// 1b. who reads the repository's raw tag list: the model's tag list holds canonical versions only, which is right as
+	// long as every choice among tags goes through taggedVersions (the revision lookup matches a canonical requirement
+	// exactly, so it may read the raw list)
+	var rawTagReaders []string
+	for _, rel := range []string{"internal/mvs/get.go", "internal/mvs/query.go", "internal/mvs/reqs.go", "internal/mvs/resolver.go"} {
+		f, err := lib.Parse(*repo, rel)
+		if err != nil {
+			o.Fail("parse %s: %v", rel, err)
+			continue
+		}
+		for _, d := range f.AST.Decls {
+			fd, ok := d.(*ast.FuncDecl)
+			if !ok || fd.Body == nil {
+				continue
+			}
+			calls := false
+			ast.Inspect(fd.Body, func(n ast.Node) bool {
+				if ce, ok := n.(*ast.CallExpr); ok {
+					if sel, ok := ce.Fun.(*ast.SelectorExpr); ok && sel.Sel.Name == "Versions" {
+						calls = true
+					}
+				}
+				return true
+			})
+			if calls {
+				rawTagReaders = append(rawTagReaders, lib.LeanString(rel+":"+fd.Name.Name))
+			}
+		}
+	}
+	o.Def("rawTagReaders", "List String", "["+strings.Join(rawTagReaders, ", ")+"]")
 
 	// 2. the sentinel version strings
 	if f := files[*repo+"/internal/mvs/reqs.go"]; f != nil {
@@ -264,7 +308,9 @@ func main() {
 	dir := filepath.Join(modCache(), "github.com", "pgavlin", "mvs@"+mv)
 	t10, tb10, fd10 := collect(dir, "pgavlin/mvs/", thirdFuncsC10)
 	o.Def("thirdBodiesC10", "List (String × String)", leanPairs(t10, tb10))
+	failC11 = true
 	t11, tb11, fd11 := collect(dir, "pgavlin/mvs/", thirdFuncsC11)
+	failC11 = false
 	o.Def("thirdBodiesC11", "List (String × String)", leanPairs(t11, tb11))
 	for _, fd := range append(fd10, fd11...) {
 		for _, s := range comparedWith(fd, "Version") {
@@ -273,4 +319,5 @@ func main() {
 	}
 	// every literal a module version is compared with in those functions (the "none" sentinel)
 	o.Def("thirdVersionSentinels", "List String", "["+strings.Join(nones, ", ")+"]")
+	o.Def("extractionErrorsC11", "List String", "["+strings.Join(errsC11, ", ")+"]")
 }
